@@ -97,6 +97,24 @@ func init() {
 		}
 		return []Val{{r}}
 	}
+	modelTable["strings.ReplaceAll"] = func(e *Engine, st *State, fr *Frame, callee *ssa.Function, args []Val, at ssa.Instruction) []Val {
+		s, o, n := st.norm(args[0][0]), st.norm(args[1][0]), st.norm(args[2][0])
+		if sv, ok := strOf(s); ok {
+			if ov, ok := strOf(o); ok {
+				if nv, ok := strOf(n); ok {
+					return []Val{{internStr(strings.ReplaceAll(sv, ov, nv))}}
+				}
+			}
+		}
+		r := App(smtName("strings.ReplaceAll"), SInt, s, o, n)
+		e.fact(st, Le(IntC(0), r))
+		// removing a text is idempotent
+		if nv, ok := strOf(n); ok && nv == "" {
+			e.fact(st, Eq(App(smtName("strings.ReplaceAll"), SInt, r, o, n), r))
+			e.fact(st, Le(strLen(r), strLen(s)))
+		}
+		return []Val{{r}}
+	}
 	modelTable["path/filepath.ToSlash"] = toSlash
 	initStrconvModels()
 	initBuilderModels()
@@ -328,7 +346,35 @@ func pow2Term(st *State, k *Term) *Term {
 	return App("pow2", SInt, k)
 }
 
+// goIntText: the digit text and the base that strconv.ParseInt / big.Int.SetString use for (s, base).
+func goIntText(e *Engine, st *State, s, base *Term) (*Term, *Term) {
+	if c, ok := base.ConstInt(); ok && c != 0 {
+		return s, base
+	}
+	b0, b1 := strByte(s, IntC(0)), strByte(s, IntC(1))
+	lead0 := And(Le(IntC(2), strLen(s)), Eq(b0, IntC('0')))
+	is := func(lo, up byte) *Term { return Or(Eq(b1, IntC(int64(lo))), Eq(b1, IntC(int64(up)))) }
+	two := e.substr(st, s, IntC(2), strLen(s))
+	one := e.substr(st, s, IntC(1), strLen(s))
+	pref := And(lead0, Or(is('x', 'X'), is('b', 'B'), is('o', 'O')))
+	digs := Ite(pref, two, Ite(lead0, one, s))
+	gb := Ite(And(lead0, is('x', 'X')), IntC(16), Ite(And(lead0, is('b', 'B')), IntC(2), Ite(lead0, IntC(8), IntC(10))))
+	if c, ok := base.ConstInt(); ok && c == 0 {
+		return digs, gb
+	}
+	return Ite(Eq(base, IntC(0)), digs, s), Ite(Eq(base, IntC(0)), gb, base)
+}
+
 func initBigModels() {
+	modelTable["(*math/big.Int).SetString"] = func(e *Engine, st *State, fr *Frame, callee *ssa.Function, args []Val, at ssa.Instruction) []Val {
+		z, s, base := args[0][0], st.norm(args[1][0]), st.norm(args[2][0])
+		e.nilCheck(st, z, at.Pos(), "big")
+		digs, b := goIntText(e, st, s, base)
+		okT := App("litvalid", SBool, digs, b)
+		// on failure the receiver's value is undefined (and nil is returned)
+		bigSet(st, z, Ite(okT, App("litdigits", SInt, digs, b), Fresh("setstring", SInt)))
+		return []Val{{Ite(okT, z, IntC(0))}, {okT}}
+	}
 	defer func() {
 		for k := range modelTable {
 			if strings.HasPrefix(k, "(*math/big.Int).") || k == "math/big.NewInt" {
@@ -478,6 +524,22 @@ func initStrconvModels() {
 		e.fact(st, inRange(val, types.Typ[types.Int]))
 		errv := freshError(e, st, fr, callee, args, at)[0]
 		return []Val{{Ite(okT, val, IntC(0))}, {Ite(okT, IntC(0), errv[0]), Ite(okT, IntC(0), errv[1])}}
+	}
+	// Integer texts. litdigits(t, b) is the mathematical value of the digit text t in base b (with an
+	// optional sign), litvalid(t, b) says that t is such a text: both uninterpreted and SHARED by
+	// strconv.ParseInt and (*big.Int).SetString. With base 0 both functions choose the base the way Go
+	// documents: "0x"/"0X" -> 16, "0b"/"0B" -> 2, "0o"/"0O" -> 8, any other text of two or more
+	// characters that starts with '0' -> 8 (a leading zero IS an octal prefix in Go), otherwise 10.
+	modelTable["strconv.ParseInt"] = func(e *Engine, st *State, fr *Frame, callee *ssa.Function, args []Val, at ssa.Instruction) []Val {
+		s, base, bits := st.norm(args[0][0]), st.norm(args[1][0]), st.norm(args[2][0])
+		digs, b := goIntText(e, st, s, base)
+		val := App("litdigits", SInt, digs, b)
+		lim := pow2Term(st, Sub(Ite(Eq(bits, IntC(0)), IntC(64), bits), IntC(1)))
+		okT := And(App("litvalid", SBool, digs, b), Le(Neg(lim), val), Lt(val, lim))
+		errv := freshError(e, st, fr, callee, args, at)[0]
+		junk := Fresh("parseint", SInt)
+		e.fact(st, inRange(junk, types.Typ[types.Int64]))
+		return []Val{{Ite(okT, val, junk)}, {Ite(okT, IntC(0), errv[0]), Ite(okT, IntC(0), errv[1])}}
 	}
 	modelTable["strconv.FormatFloat"] = func(e *Engine, st *State, fr *Frame, callee *ssa.Function, args []Val, at ssa.Instruction) []Val {
 		f := st.norm(args[0][0])
